@@ -274,7 +274,9 @@ func (iter *inIndexIterator) nextIterator() (bool, error) {
 
 // createIteratorForNextValue initializes the next index iterator based on the current value index.
 func (iter *inIndexIterator) createIteratorForNextValue() error {
-	if iter.isUnique {
+	// The entries of a unique index for documents without a value carry the docID (there may be many of
+	// them): a null in the list is found by prefix, not by the one full key.
+	if iter.isUnique && !iter.inValues[iter.nextValIndex].IsNil() {
 		indexIter, err := iter.fetcher.newEqSingleIndexIterator(iter.inValues[iter.nextValIndex], iter.fieldConditions)
 		if err != nil {
 			return err
